@@ -554,6 +554,11 @@ impl Executor {
                     log::trace!("Converting bytes {:?} into an integer.", &input_byte_vector);
 
                     let bytes = input_byte_vector.into_bytes()?;
+                    // only a 32-byte string converts; check before flattening the rope, whose
+                    // length is not bounded by anything the spender paid for
+                    if bytes.len() != 32 {
+                        return None;
+                    }
                     let bytes_vector: Vec<u8> = bytes.into();
                     #[cfg(melstf_verif)]
                     crate::verif_hooks::BYTES_MATERIALISED.fetch_add(bytes_vector.len() as u64, std::sync::atomic::Ordering::Relaxed);
